@@ -1840,6 +1840,10 @@ fn games(e: &mut Exec, rng: &mut Rng, kv: &Args, positions: &[(String, Pos)]) {
                     }
                 }
                 e.tally("tempo-loss-revisits");
+                // the engine asked for its move here (C15): same placement, other side to move, same Game
+                if kv.num("engine", 0) == 1 {
+                    e.exec("gselect");
+                }
                 tri_stage = 99;
             }
             let pairs: Vec<(usize, usize)> = if all_pairs_every > 0 && node_no % all_pairs_every == 0 {
